@@ -51,6 +51,78 @@ Proof.
   rewrite (Z2_centred j (fun K => proj_of RO K d j * sin (Rphase K x j)) Hj). ring.
 Qed.
 End Mean.
+Section Variance.
+(* second moments: the amplitudes have unit variance, are uncorrelated with each other and with every
+   function of the wave vectors (implied by: independent standard normals, independent of the modes) *)
+Hypothesis Z11 : forall j l (g : list (list R) -> R), (j < Nm)%nat -> (l < Nm)%nat ->
+  E (fun w => aget 0 (Z1 w) j * aget 0 (Z1 w) l * g (KS w)) = if Nat.eqb j l then E (fun w => g (KS w)) else 0.
+Hypothesis Z22 : forall j l (g : list (list R) -> R), (j < Nm)%nat -> (l < Nm)%nat ->
+  E (fun w => aget 0 (Z2 w) j * aget 0 (Z2 w) l * g (KS w)) = if Nat.eqb j l then E (fun w => g (KS w)) else 0.
+Hypothesis Z12 : forall j l (g : list (list R) -> R), (j < Nm)%nat -> (l < Nm)%nat ->
+  E (fun w => aget 0 (Z1 w) j * aget 0 (Z2 w) l * g (KS w)) = 0.
+
+Lemma Rsum_mult f g n m : Rsum f n * Rsum g m = Rsum (fun j => Rsum (fun l => f j * g l) m) n.
+Proof.
+  rewrite Rmult_comm, <- Rsum_scal. apply Rsum_ext. intros j _. rewrite Rsum_scal. ring.
+Qed.
+
+(* E[(u_d(x) - mean_u e1_d)^2] = mean_u^2 (var/N) sum_j E[p_d(k_j)^2]  at every point x *)
+Theorem variance_velocity mean_u var N x d :
+  E (fun w => (velocity RO mean_u var N (KS w) (Z1 w) (Z2 w) x d - mean_u * e1_of RO d) ^ 2)
+  = (incompr_amp RO mean_u var N) ^ 2 * Rsum (fun j => E (fun w => (proj_of RO (KS w) d j) ^ 2)) Nm.
+Proof.
+  set (a := fun j (K : list (list R)) => proj_of RO K d j * cos (Rphase K x j)).
+  set (b := fun j (K : list (list R)) => proj_of RO K d j * sin (Rphase K x j)).
+  set (z1 := fun w j => aget 0 (Z1 w) j). set (z2 := fun w j => aget 0 (Z2 w) j).
+  rewrite (E_ext _ (fun w => (incompr_amp RO mean_u var N) ^ 2 *
+      Rsum (fun j => Rsum (fun l =>
+          (z1 w j * z1 w l * (a j (KS w) * a l (KS w)) + z1 w j * z2 w l * (a j (KS w) * b l (KS w)))
+        + (z1 w l * z2 w j * (a l (KS w) * b j (KS w)) + z2 w j * z2 w l * (b j (KS w) * b l (KS w)))) Nm) Nm)).
+  2:{ intros w. rewrite velocity_R. unfold Rfield. rewrite modes_shape.
+      replace (mean_u * e1_of RO d + incompr_amp RO mean_u var N * Rsum (fun j => proj_of RO (KS w) d j * Rwave (Z1 w) (Z2 w) (Rphase (KS w) x j) j) Nm + 0 - mean_u * e1_of RO d)
+        with (incompr_amp RO mean_u var N * Rsum (fun j => z1 w j * a j (KS w) + z2 w j * b j (KS w)) Nm).
+      2:{ ring_simplify. f_equal. apply Rsum_ext. intros j _. unfold Rwave, a, b, z1, z2. ring. }
+      rewrite Rpow_mult_distr. f_equal. simpl. rewrite Rmult_1_r, Rsum_mult.
+      apply Rsum_ext. intros j _. apply Rsum_ext. intros l _. ring. }
+  rewrite E_scal. f_equal. rewrite E_Rsum. apply Rsum_ext. intros j Hj. rewrite E_Rsum.
+  rewrite (Rsum_ext _ (fun l => if Nat.eqb j l then E (fun w => (proj_of RO (KS w) d j) ^ 2) else 0)).
+  { rewrite (Rsum_ext _ (fun l => if Nat.eqb l j then E (fun w => (proj_of RO (KS w) d j) ^ 2) else 0)).
+    - now rewrite (Rsum_select (fun _ => E (fun w => (proj_of RO (KS w) d j) ^ 2))).
+    - intros l _. rewrite Nat.eqb_sym. reflexivity. }
+  intros l Hl.
+  rewrite (E_plus (fun w => z1 w j * z1 w l * (a j (KS w) * a l (KS w)) + z1 w j * z2 w l * (a j (KS w) * b l (KS w)))
+                  (fun w => z1 w l * z2 w j * (a l (KS w) * b j (KS w)) + z2 w j * z2 w l * (b j (KS w) * b l (KS w)))).
+  rewrite (E_plus (fun w => z1 w j * z1 w l * (a j (KS w) * a l (KS w))) (fun w => z1 w j * z2 w l * (a j (KS w) * b l (KS w)))).
+  rewrite (E_plus (fun w => z1 w l * z2 w j * (a l (KS w) * b j (KS w))) (fun w => z2 w j * z2 w l * (b j (KS w) * b l (KS w)))).
+  unfold z1, z2.
+  rewrite (Z11 j l (fun K => a j K * a l K) Hj Hl), (Z12 j l (fun K => a j K * b l K) Hj Hl),
+          (Z12 l j (fun K => a l K * b j K) Hl Hj), (Z22 j l (fun K => b j K * b l K) Hj Hl).
+  destruct (Nat.eqb_spec j l) as [<-|Hne]; [|ring].
+  rewrite Rplus_0_r, Rplus_0_l.
+  rewrite <- (E_plus (fun w => a j (KS w) * a j (KS w)) (fun w => b j (KS w) * b j (KS w))).
+  apply E_ext. intros w. unfold a, b.
+  pose proof (sin2_cos2 (Rphase (KS w) x j)) as H. unfold Rsqr in H.
+  transitivity ((proj_of RO (KS w) d j) ^ 2 * (sin (Rphase (KS w) x j) * sin (Rphase (KS w) x j) + cos (Rphase (KS w) x j) * cos (Rphase (KS w) x j))); [ring|].
+  rewrite H. ring.
+Qed.
+
+(* identically distributed modes: each component carries the fraction q_d = E[p_d(k)^2] of mean_u^2 var *)
+Corollary variance_fraction mean_u var x d q : (0 < Nm)%nat -> 0 <= var ->
+  (forall j, (j < Nm)%nat -> E (fun w => (proj_of RO (KS w) d j) ^ 2) = q) ->
+  E (fun w => (velocity RO mean_u var (Z.of_nat Nm) (KS w) (Z1 w) (Z2 w) x d - mean_u * e1_of RO d) ^ 2)
+  = mean_u ^ 2 * var * q.
+Proof.
+  intros HN Hv Hq. rewrite variance_velocity. rewrite (Rsum_ext _ (fun _ => q) Nm Hq).
+  assert (Rsum (fun _ => q) Nm = INR Nm * q) as ->.
+  { clear. induction Nm as [|n IH]; [simpl; ring|]. rewrite S_INR. simpl Rsum. rewrite IH. ring. }
+  unfold incompr_amp. simpl. rewrite <- INR_IZR_INZ.
+  assert (0 < INR Nm) by (apply lt_0_INR; lia).
+  rewrite !Rmult_1_r.
+  replace (mean_u * sqrt (var / INR Nm) * (mean_u * sqrt (var / INR Nm)))
+    with (mean_u * mean_u * (sqrt (var / INR Nm) * sqrt (var / INR Nm))) by ring.
+  rewrite sqrt_sqrt by (apply Rdiv_le_0_compat; lra). field. lra.
+Qed.
+End Variance.
 End Ensemble.
 
 (* the hypotheses are satisfiable: a fair coin flipping the sign of both amplitudes *)
@@ -71,4 +143,32 @@ Proof.
   - intros; field.
   - intros; field.
   - intros j g Hj. assert (j = 0%nat) by lia. subst. unfold aget; simpl. field.
+Qed.
+
+(* second-moment hypotheses are satisfiable too: two independent fair signs *)
+Example variance_hypotheses_satisfiable :
+  let E := fun f : bool * bool -> R => (f (true, true) + f (true, false) + f (false, true) + f (false, false)) / 4 in
+  let KS := fun _ : bool * bool => [[1]; [0]] in
+  let sg := fun b : bool => if b then 1 else -1 in
+  let Z1 := fun w : bool * bool => [sg (fst w)] in
+  let Z2 := fun w : bool * bool => [sg (snd w)] in
+  (forall f g, (forall w, f w = g w) -> E f = E g) /\
+  (forall f g, E (fun w => f w + g w) = E f + E g) /\
+  (forall c f, E (fun w => c * f w) = c * E f) /\
+  (forall c, E (fun _ => c) = c) /\
+  (forall j l (g : list (list R) -> R), (j < 1)%nat -> (l < 1)%nat ->
+     E (fun w => aget 0 (Z1 w) j * aget 0 (Z1 w) l * g (KS w)) = if Nat.eqb j l then E (fun w => g (KS w)) else 0) /\
+  (forall j l (g : list (list R) -> R), (j < 1)%nat -> (l < 1)%nat ->
+     E (fun w => aget 0 (Z2 w) j * aget 0 (Z2 w) l * g (KS w)) = if Nat.eqb j l then E (fun w => g (KS w)) else 0) /\
+  (forall j l (g : list (list R) -> R), (j < 1)%nat -> (l < 1)%nat ->
+     E (fun w => aget 0 (Z1 w) j * aget 0 (Z2 w) l * g (KS w)) = 0).
+Proof.
+  cbv zeta. repeat split.
+  - intros f g H. now rewrite !H.
+  - intros; field.
+  - intros; field.
+  - intros; field.
+  - intros j l g Hj Hl. assert (j = 0%nat) by lia. assert (l = 0%nat) by lia. subst. unfold aget; simpl. field.
+  - intros j l g Hj Hl. assert (j = 0%nat) by lia. assert (l = 0%nat) by lia. subst. unfold aget; simpl. field.
+  - intros j l g Hj Hl. assert (j = 0%nat) by lia. assert (l = 0%nat) by lia. subst. unfold aget; simpl. field.
 Qed.
